@@ -17,7 +17,11 @@ CHECKS = {
     "C01": {"units": [rapid("csyncx", "TestC01", 10000, 100000)]},
     "C02": {"units": [rapid("csyncx", "TestC02", 10000, 100000)]},
     "C03": {"units": [rapid("bcastx", "TestC03", 10000, 100000)]},
+    "C11": {"units": [rapid("promisex", "TestC11", 10000, 80000)]},
     "C15": {"units": [rapid("ccontx", "TestC15", 10000, 80000)]},
+    "C16": {"units": [rapid("promisex", "TestC16", 10000, 80000)]},
+    "C17": {"units": [rapid("ccallx", "TestC17", 20000, 150000)]},
+    "C18": {"units": [rapid("concx", "TestC18", 8000, 60000)]},
     "C19": {"units": [
         rapid("codecx", "TestC19Pad", 20000, 60000, 4),
         rapid("codecx", "TestC19Unpad", 20000, 60000, 4),
